@@ -511,7 +511,8 @@ Fixpoint run_state (st : rd) (ops : list op) : rd :=
 (* ------------------------------------------------------------------ change notifications (observers of the lookup resources)
    CommonRD._updated_state (rd.py:296-298) runs every callback registered with register_change_callback — the two lookup
    resources' updated_state, which triggers their observations. It is called through Registration._update_cb from
-   update_params when actual_change is set (rd.py:231-232) and from Registration.delete (rd.py:239), nowhere else. *)
+   update_params when actual_change is set (rd.py:231-232), from Registration.delete (rd.py:239) and from
+   RegistrationResource.render_put after it replaced the links (rd.py:509). *)
 Definition query_eqb (a b : query) : bool := list_eqb (fun x y => String.eqb (fst x) (fst y) && olist_eqb (snd x) (snd y)) a b.
 (* actual_change of a succeeding non-initial update_params: the flag is raised exactly where a differing value is assigned
    (lt rd.py:207-209, base :210-213, network base :215-217, parameters :219-224) *)
@@ -524,9 +525,14 @@ Definition notify_count (st : rd) (o : op) : Z :=
     match o with
     | Register _ _ _ =>                        (* the new Registration (is_initial) and, on re-registration, oldreg.delete() *)
         match r with Created _ => if blen (by_key st1) =? blen (by_key st) then 2 else 1 | _ => 0 end
-    | UpdatePost path _ _ _ | UpdatePut path _ _ _ =>
+    | UpdatePost path _ _ _ =>
         match r, lookup_path st path with
         | Changed, Some id => if reg_changed (obj st id) (obj st1 id) then 1 else 0
+        | _, _ => 0
+        end
+    | UpdatePut path _ _ _ =>                  (* update_params as for POST, then render_put announces the new links (rd.py:507-509, since 3b8673f) *)
+        match r, lookup_path st path with
+        | Changed, Some id => (if reg_changed (obj st id) (obj st1 id) then 1 else 0) + 1
         | _, _ => 0
         end
     | Delete _ => match r with Deleted => 1 | _ => 0 end
